@@ -1048,7 +1048,7 @@ class Node:
         peer = self._find_connection_peer(conn)
         if peer:
             peer.statistics.add_processed_req_time(message.name, process_time)
-            if hasattr(message, "result_code"):
+            if getattr(message, "result_code", None) is not None:
                 peer.statistics.add_sent_result_code(message.result_code)
 
     def _update_peer_counters(self, conn: PeerConnection,
